@@ -3,7 +3,7 @@ import glmxpy as G
 
 def run_simple(prop, spec, tier, known_ids, t0, args):
     cfgs = spec.get('configs', ['default'])
-    bins = G.build_many([(spec['src'], c, tuple(spec.get('flags', [])), None) for c in cfgs])
+    bins = G.build_many([(spec['src'], c, tuple(spec.get('flags', [])), None, (), tuple(spec.get('libs', []))) for c in cfgs])
     results = []
     extra = ['--only', args.only] if getattr(args, 'only', '') else []
     for b, c in zip(bins, cfgs):
@@ -14,6 +14,10 @@ def run_simple(prop, spec, tier, known_ids, t0, args):
     return G.report(prop, tier, spec['level'], results, spec['rule'], t0, src=spec['src'], model_checking=mc)
 
 PROPS = {
+ 'C11': dict(src='drivers/c11.cpp', level='exploration', libs=['-lquadmath'],
+   technique='exhaustive enumeration of all 2^32 float bit patterns through every unary common function (thorough; structured 6.6e5-point lattice + all ties quick), complete special-value products for n-ary functions, every constant against __float128',
+   text='Unary functions (floor ceil trunc round roundEven fract abs sign isnan isinf frexp/ldexp modf iround uround texcoord wraps, bit casts) are decided for every float bit pattern in the thorough tier and on a lattice containing every binade edge, tie and special value in the quick tier; doubles on the analogous lattice; n-ary functions (min max step fmin fmax mod clamp fclamp mix smoothstep fma, 3-/4-operand forms) on the complete product of a ~77-value special lattice; all 31 constants x {float,double} compared bit-for-bit with quad-precision evaluations.',
+   rule='F32_ALL (2^32 patterns, thorough) / F32_EDGE + F32_TIES (quick); F64_EDGE(+ties beyond 2^31..2^51); F32_SPEC^2, ^3 and a 21-value sublist ^4, same for double. Non-trivial = input inside the function domain (finite for fract/frexp/texcoords, non-negative representable for iround/uround, no signalling NaN for fmin/fmax); distinct by construction.'),
  'C18': dict(src='drivers/c18.cpp', level='exploration',
    technique='exhaustive enumeration of all 8/16-bit values x all multiples / shift counts / bit counts (and all 2^32 16-bit interleave pairs, thorough) on the real functions against loop-based reference definitions',
    text='Power-of-two family, multiples, findNSB, mask/fill/rotate are decided completely for 8-bit types (every value x every multiple 1..127/255, every shift, every (first,count)) and for all 16-bit values against a set of multiples; 32/64-bit types over boundary lattices; bitfieldInterleave/Deinterleave completely for 8-bit pairs and (thorough) all 2^32 16-bit pairs; gtx integer sqrt/nlz/log2 over all 2^32 ints (thorough).',
